@@ -109,7 +109,13 @@ impl Parser {
                     NestedValue::Assign(logos_path) => {
                         let span = logos_path.span();
 
-                        if syn::parse2::<syn::Path>(logos_path.clone()).is_err() {
+                        // The path ends up in a `use` declaration: no generic arguments.
+                        let mod_style = syn::parse::Parser::parse2(
+                            syn::Path::parse_mod_style,
+                            logos_path.clone(),
+                        );
+
+                        if mod_style.is_err() {
                             self.err("Expected: #[logos(crate = path::to::logos)]", span);
                             continue;
                         }
